@@ -1,11 +1,226 @@
 (* Property C15 - Boundary and PointOnSurface are consistent with the interior/boundary model.
-   Statements only; proofs are in Proofs/Boundary_proofs.v and Proofs/PointOnSurface_proofs.v. *)
-From Coq Require Import QArith List Bool.
+   Statements only; proofs are in Proofs/Boundary_proofs.v and Proofs/PointOnSurface_proofs.v.
+   Models: Model/Boundary.v, Model/PointOnSurface.v (transcriptions of the Go code over Q).
+   Interior / Boundary / Exterior and point-set membership are the DEFINITIONS of Base/Planar.v
+   (locate, inG: OGC mod-2 rule for lines, crossing parity for rings). *)
+From Coq Require Import QArith List Bool ZArith.
 From SF Require Import Base.GeomAST Base.QKernel Base.Planar Model.Boundary Model.PointOnSurface
-  Proofs.Boundary_proofs.
+  Proofs.Boundary_proofs Proofs.PointOnSurface_proofs.
 Import ListNotations.
+Open Scope Q_scope.
 
-Theorem boundary_puntal_empty : forall g,
-  dimension g = 0%nat -> (forall ct gs, g <> GColl ct gs) -> is_empty (boundary g) = true.
+(* ---- concrete values for the non-vacuity examples ---- *)
+Definition zv (p : Z * Z) : vtx Q := Build_vtx (inject_Z (fst p)) (inject_Z (snd p)) 0 0.
+Definition zline (l : list (Z * Z)) : lineT Q := MkLine XY (map zv l).
+Definition zpt (p : Z * Z) : pt := (inject_Z (fst p), inject_Z (snd p)).
+(* three open lines sharing the end point (1,1), one closed line through it *)
+Definition ex_star : list (lineT Q) :=
+  [zline [(0,0);(1,1)]; zline [(1,1);(2,2)]; zline [(1,1);(3,0)]; zline [(1,1);(5,1);(5,5);(1,1)]]%Z.
+(* square with a triangular hole whose apex is on the centre row of the envelope *)
+Definition ex_holed : polyT Q :=
+  MkPoly XY [zline [(0,0);(4,0);(4,4);(0,4);(0,0)]; zline [(1,1);(3,1);(2,2);(1,1)]]%Z.
+(* U shape: the centre of the envelope is outside the polygon and its row hits two vertices *)
+Definition ex_u : polyT Q :=
+  MkPoly XY [zline [(0,0);(6,0);(6,4);(4,4);(4,2);(2,2);(2,4);(0,4);(0,0)]]%Z.
+Definition ex_coll : geom :=
+  GColl XY [GPoly (MkPoly XY []); GLine (zline [(0,0);(2,0);(2,2)]%Z); GPoint (MkPoint XY (Some (zv (7,7)%Z)))].
+
+(* ================================================================ Boundary *)
+
+(* dimension: the boundary is empty or exactly one dimension lower (dimension of the point set,
+   empty parts not counted) - every type, nested collections included *)
+Theorem boundary_dim : forall g : geom,
+  geom_wf g = true -> is_empty (boundary g) = true \/ S (dim_ie (boundary g)) = dim_ie g.
+Proof. exact boundary_dim_lemma. Qed.
+Print Assumptions boundary_dim.
+Example boundary_dim_ex :
+  geom_wf (GPoly ex_holed) = true /\ dim_ie (boundary (GPoly ex_holed)) = 1%nat /\
+  geom_wf ex_coll = true /\ dim_ie ex_coll = 1%nat /\ dim_ie (boundary ex_coll) = 0%nat /\
+  dimension ex_coll = 2%nat.
+Proof. vm_compute. repeat split. Qed.
+
+(* the same with Go's Dimension() (empty members count) for the six non-collection types *)
+Theorem boundary_dim_go : forall g : geom,
+  (forall ct gs, g <> GColl ct gs) ->
+  match dimension g with
+  | O => is_empty (boundary g) = true
+  | S d => dimension (boundary g) = d
+  end.
+Proof. exact boundary_dim_go_lemma. Qed.
+Print Assumptions boundary_dim_go.
+
+(* nothing for points; closed lines have none *)
+Theorem boundary_puntal_empty : forall g : geom,
+  (forall ct gs, g <> GColl ct gs) -> dimension g = 0%nat -> is_empty (boundary g) = true.
 Proof. exact boundary_puntal_empty_lemma. Qed.
 Print Assumptions boundary_puntal_empty.
+Theorem boundary_closed_line_empty : forall l : lineT Q,
+  line_is_closed l = true -> is_empty (boundary (GLine l)) = true.
+Proof. exact boundary_closed_line_empty_lemma. Qed.
+Print Assumptions boundary_closed_line_empty.
+Example boundary_closed_line_ex : line_is_closed (zline [(1,1);(5,1);(5,5);(1,1)]%Z) = true.
+Proof. reflexivity. Qed.
+
+(* the boundary of a boundary is empty *)
+Theorem boundary_of_boundary_empty : forall g : geom,
+  geom_wf g = true -> is_empty (boundary (boundary g)) = true.
+Proof. exact boundary_of_boundary_empty_lemma. Qed.
+Print Assumptions boundary_of_boundary_empty.
+Example boundary_of_boundary_ex :
+  is_empty (boundary (GPoly ex_holed)) = false /\ is_empty (boundary (GMLine XY ex_star)) = false.
+Proof. vm_compute. split; reflexivity. Qed.
+
+(* mod-2 rule: a point belongs to the boundary of a MultiLineString iff it is an end point of an
+   odd number of non-closed members - all inputs, no hypothesis *)
+Theorem boundary_mod2_spec : forall (ls : list (lineT Q)) (p : pt),
+  inG (mline_boundary ls) p = odd_open_ends ls p.
+Proof. exact boundary_mod2_spec_lemma. Qed.
+Print Assumptions boundary_mod2_spec.
+Example boundary_mod2_ex :
+  odd_open_ends ex_star (zpt (1,1)%Z) = true /\ odd_open_ends ex_star (zpt (5,5)%Z) = false /\
+  odd_open_ends (tl ex_star) (zpt (1,1)%Z) = false /\ odd_open_ends ex_star (zpt (3,0)%Z) = true.
+Proof. vm_compute. repeat split. Qed.
+
+(* every point of Boundary(g) relates to g as boundary, and nothing else does: lineal *)
+Theorem boundary_locate_lineal : forall (g : geom) (p : pt),
+  (exists l, g = GLine l) \/ (exists ct ls, g = GMLine ct ls) ->
+  (inG (boundary g) p = true <-> locate g p = Boundary).
+Proof. exact boundary_locate_lineal_lemma. Qed.
+Print Assumptions boundary_locate_lineal.
+
+(* ... Polygon (the rings, as LineString or MultiLineString) *)
+Theorem boundary_locate_polygon : forall (y : polyT Q) (p : pt),
+  inG (boundary (GPoly y)) p = true <-> locate (GPoly y) p = Boundary.
+Proof. exact boundary_locate_polygon_lemma. Qed.
+Print Assumptions boundary_locate_polygon.
+Example boundary_locate_polygon_ex :
+  locate (GPoly ex_holed) (zpt (2,2)%Z) = Boundary /\ locate (GPoly ex_holed) (zpt (2,3)%Z) = Interior /\
+  inG (boundary (GPoly ex_holed)) (zpt (2,2)%Z) = true.
+Proof. vm_compute. repeat split. Qed.
+
+(* ... MultiPolygon: Boundary iff on a ring of a member and strictly inside no member (the second
+   conjunct is automatic for valid input, whose members have disjoint interiors) *)
+Theorem boundary_locate_multipolygon : forall ct (ys : list (polyT Q)) (p : pt),
+  locate (GMPoly ct ys) p = Boundary <->
+  inG (boundary (GMPoly ct ys)) p = true /\ existsb (fun y => poly_interior y p) ys = false.
+Proof. exact boundary_locate_multipolygon_lemma. Qed.
+Print Assumptions boundary_locate_multipolygon.
+
+(* a collection's boundary is the collection of its members' non-empty boundaries *)
+Theorem boundary_collection_structure : forall ct (gs : list geom),
+  boundary (GColl ct gs) =
+  if forallb (@is_empty Q) gs then GColl ct gs
+  else GColl XY (filter (fun b => negb (is_empty b)) (map (fun g' => force2d (boundary g')) gs)).
+Proof. exact boundary_collection_structure_lemma. Qed.
+Print Assumptions boundary_collection_structure.
+(* as point sets: the union of the members' boundaries *)
+Theorem boundary_collection : forall ct (gs : list geom) (p : pt),
+  inG (boundary (GColl ct gs)) p = existsb (fun g' => inG (boundary g') p) gs.
+Proof. exact boundary_collection_lemma. Qed.
+Print Assumptions boundary_collection.
+Example boundary_collection_ex :
+  inG (boundary ex_coll) (zpt (2,2)%Z) = true /\ inG (boundary ex_coll) (zpt (2,0)%Z) = false.
+Proof. vm_compute. split; reflexivity. Qed.
+
+(* ================================================================ PointOnSurface *)
+(* every statement holds for EVERY centroid oracle cen (Centroid() is an argument of the model) *)
+
+(* empty iff the input is empty (cen defined on non-empty geometries; every non-empty MultiPolygon
+   leaf has a member with a regular row: pos_dom) *)
+Theorem pos_empty_iff : forall (cen : geom -> option pt),
+  (forall x, is_empty x = false -> cen x <> None) ->
+  forall g : geom, geom_wf g = true -> pos_dom g = true -> point_empty (pos cen g) = is_empty g.
+Proof. exact pos_empty_iff_lemma. Qed.
+Print Assumptions pos_empty_iff.
+Example pos_empty_iff_ex :
+  geom_wf (GMPoly XY [ex_holed; ex_u]) = true /\ pos_dom (GMPoly XY [ex_holed; ex_u]) = true /\
+  pos_dom ex_coll = true /\ is_empty ex_coll = false.
+Proof. vm_compute. repeat split. Qed.
+
+(* lineal: the point is on the line string (it is one of its control points) *)
+Theorem pos_lineal_on_line : forall (cen : geom -> option pt) (l : lineT Q) (p : pt),
+  point_xy (pos cen (GLine l)) = Some p -> on_line l p = true.
+Proof. exact pos_line_on_line_lemma. Qed.
+Print Assumptions pos_lineal_on_line.
+Theorem pos_multilineal_on_line : forall (cen : geom -> option pt) ct (ls : list (lineT Q)) (p : pt),
+  point_xy (pos cen (GMLine ct ls)) = Some p -> inG (GMLine ct ls) p = true.
+Proof. exact pos_mline_on_line_lemma. Qed.
+Print Assumptions pos_multilineal_on_line.
+Example pos_lineal_ex :
+  point_xy (pos (fun _ => Some (zpt (2,1)%Z)) (GLine (zline [(0,0);(2,0);(2,2)]%Z))) = Some (zpt (2,0)%Z) /\
+  point_xy (pos (fun _ => Some (zpt (2,1)%Z)) (GMLine XY ex_star)) = Some (zpt (5,1)%Z).
+Proof. vm_compute. split; reflexivity. Qed.
+
+(* puntal: one of the member points *)
+Theorem pos_multipoint_member : forall (cen : geom -> option pt) ct (ps : list (pointT Q)) (p : pt),
+  point_xy (pos cen (GMPoint ct ps)) = Some p -> exists q, In q ps /\ point_xy q = Some p.
+Proof. exact pos_mpoint_member_lemma. Qed.
+Print Assumptions pos_multipoint_member.
+Theorem pos_point : forall (cen : geom -> option pt) (q : pointT Q),
+  point_xy (pos cen (GPoint q)) = point_xy q.
+Proof. exact pos_point_lemma. Qed.
+Print Assumptions pos_point.
+
+(* collections: the result is the point-on-surface of a non-empty leaf of the highest dimension *)
+Theorem pos_collection_highest_dim : forall (cen : geom -> option pt) ct (gs : list geom) (p : pt),
+  point_xy (pos cen (GColl ct gs)) = Some p ->
+  exists l, In l (leaves (GColl ct gs)) /\ is_empty l = false /\
+            dim_ie l = dim_ie (GColl ct gs) /\ pos cen (GColl ct gs) = leaf_pos cen l.
+Proof. exact pos_collection_lemma. Qed.
+Print Assumptions pos_collection_highest_dim.
+Example pos_collection_ex :
+  point_xy (pos (fun _ => Some (zpt (7,7)%Z)) ex_coll) = Some (zpt (2,0)%Z).
+Proof. vm_compute. reflexivity. Qed.
+
+(* areal, step 1 (all polygons, no hypothesis): the bisector passes through no control point of
+   any ring - the adjustment "mean with the next higher control point" does what it is meant to *)
+Theorem pos_row_avoids_vertices : forall (y : polyT Q) (ri : row_info),
+  poly_row y = Some ri ->
+  forall r q, In r (poly_rings y) -> In q (line_pts r) -> ~ snd q == r_y ri.
+Proof. exact row_avoids_vertices_lemma. Qed.
+Print Assumptions pos_row_avoids_vertices.
+Example pos_row_ex :
+  option_map r_y (poly_row ex_holed) = Some (12 # 4) /\ option_map r_y (poly_row ex_u) = Some (12 # 4) /\
+  option_map r_xs (poly_row ex_u) = Some [0; 2 # 1; 4 # 1; 6 # 1].
+Proof. vm_compute. repeat split. Qed.
+
+(* areal, step 2: the returned point is STRICTLY INTERIOR. Parity argument on the one horizontal
+   line: no control point on the row => every ring edge either misses the row or crosses it
+   properly at one point; the crossings to the right of the midpoint of the (2k+1)-th .. (2k+2)-th
+   sorted intercept are odd in number, so the crossing parities of the rings at the point XOR to
+   odd, and the point is on no ring. Hypotheses = what polygon validity provides, stated with the
+   model's quantities: the bisector reaches every crossing (row_spans: holes do not leave the
+   shell's envelope), distinct edges meet the row in distinct points (nodupq), holes lie inside the
+   shell and are not nested in one another, in the crossing-parity sense (valid_nesting). *)
+Theorem pos_areal_interior : forall (y : polyT Q) (ri : row_info) (p : pt),
+  poly_row y = Some ri ->
+  xs_regular (r_xs ri) = true ->
+  row_spans (fst (fst (r_bis ri))) (fst (snd (r_bis ri))) (r_y ri) (poly_rings y) = true ->
+  nodupq (raw_intercepts (r_bis ri) (poly_rings y)) = true ->
+  valid_nesting y ->
+  point_xy (fst (point_on_area y)) = Some p ->
+  poly_interior y p = true /\ locate (GPoly y) p = Interior.
+Proof. exact pos_areal_interior_lemma. Qed.
+Print Assumptions pos_areal_interior.
+(* the hypotheses hold for the U shape (holeless: the nesting condition is immediate), whose
+   envelope centre (3,2) is outside the polygon and on a vertex row; the result is (1,3),
+   printed unreduced as (2/2, 12/4) *)
+Example pos_areal_interior_ex :
+  row_hyps ex_u = true /\ valid_nesting ex_u /\ point_xy (fst (point_on_area ex_u)) = Some (2 # 2, 12 # 4).
+Proof.
+  split; [vm_compute; reflexivity|]. split; [|vm_compute; reflexivity].
+  intros p _. unfold nesting_at. cbn. split; [apply le_S, le_n|intros H; discriminate H].
+Qed.
+(* with a hole: decidable hypotheses, and the nesting condition at the returned point (2,3) *)
+Example pos_areal_interior_ex2 :
+  row_hyps ex_holed = true /\ point_xy (fst (point_on_area ex_holed)) = Some (4 # 2, 12 # 4) /\
+  nesting_atb ex_holed (4 # 2, 12 # 4) = true /\ locate (GPoly ex_holed) (4 # 2, 12 # 4) = Interior.
+Proof. vm_compute. repeat split. Qed.
+
+(* MultiPolygon: the point is the point of a member with a regular row, strictly interior *)
+Theorem pos_multipolygon_interior : forall ct (ys : list (polyT Q)) (p : pt),
+  (forall y, In y ys -> row_regular y = true -> row_hyps y = true /\ valid_nesting y) ->
+  point_xy (mpoly_pos ys) = Some p ->
+  locate (GMPoly ct ys) p = Interior.
+Proof. exact pos_mpoly_interior_lemma. Qed.
+Print Assumptions pos_multipolygon_interior.
